@@ -80,6 +80,7 @@ const (
 	zzExtCID     = 2 // connection_id(54): 1-byte length + 1 byte
 	zzExtEMS     = 3 // extended_master_secret(23), empty
 	zzExtSRTP    = 4 // use_srtp(14): profiles<2..> = one profile, mki<0>
+	zzExtGroups  = 5 // supported_groups(10): two arbitrary named groups (the client's preference order)
 )
 
 // zzExtBlock returns the extension block (without the outer length) of the given kind with symbolic payload.
@@ -93,6 +94,8 @@ func zzExtBlock(tag string, kind int) []byte {
 		return []byte{0, 23, 0, 0}
 	case zzExtSRTP:
 		return append(append([]byte{0, 14, 0, 5, 0, 2}, zzsymBytes(tag+"_srtp", 2)...), 0)
+	case zzExtGroups:
+		return append([]byte{0, 10, 0, 6, 0, 4}, zzsymBytes(tag+"_groups", 4)...)
 	}
 	return nil
 }
@@ -357,18 +360,30 @@ func zzFirstHelloAnswer12() {
 // hello verification enabled that answers a first ClientHello with a cookie request must not have generated
 // an ephemeral (EC)DH key pair for it - the source address is still unverified.
 //
-//symgo:entry covers=cookie_request
+//symgo:entry covers=cookie_request,non_default_curve,refused
 func zzNoKeyWorkBeforeCookie12() {
 	cfg := zzServerConfig()
 	state := zzServerState()
 	state.Cookie = zzsymBytes("issued", cookieLength)
 	cache := dtlsflight.NewCache()
-	ch1 := zzFirstHello(0, 0, zzExtNone)
+	// every extension kind of the menu, including supported_groups with two ARBITRARY named groups in the client's
+	// preference order (a client preferring P-256 or offering only P-384 makes the server select a curve other
+	// than its default one)
+	ch1 := zzFirstHello(0, 0, zzsymChoice("ch1_ext", 6))
 	cache.Push(ch1.raw, 0, 0, handshake.TypeClientHello, true)
-	f, _, err := flight0Parse(context.Background(), nil, state, cache, cfg)
-	zzsymAssert(err == nil, "first_hello_parses")
+	f, a, err := flight0Parse(context.Background(), nil, state, cache, cfg)
+	if err != nil || a != nil {
+		// a hello the server cannot serve (no common group) is refused: no key work either
+		zzsymAssert(zzKeypairCalls == 0 && state.LocalKeypair == nil, "no_keypair_for_refused_hello_12")
+		zzsymCover("refused")
+
+		return
+	}
 	zzsymAssert(f == Flight2, "first_hello_gets_only_cookie_request")
 	zzsymCover("cookie_request")
+	if state.NamedCurve != elliptic.X25519 {
+		zzsymCover("non_default_curve")
+	}
 	zzsymAssert(zzKeypairCalls == 0, "no_keypair_generated_before_cookie_12")
 	zzsymAssert(state.LocalKeypair == nil, "no_keypair_stored_before_cookie_12")
 }
